@@ -349,6 +349,14 @@ func PrepareFact(ctx *Context, givenId string, x Map) (id string, m map[string]i
 		Log(DEBUG, ctx, "PrepareFact", "givenId", givenId, "ttl", ttl)
 	}
 
+	if isProp, target, _, _, _ := parseProp(m); isProp && target != "" {
+		if _, given := m[KW_DeleteWith]; !given {
+			// A property goes with what it is a property of,
+			// also when it was not written with 'SetProp'.
+			m[KW_DeleteWith] = []interface{}{target}
+		}
+	}
+
 	maybeInjectId(ctx, id, m, true)
 
 	Log(DEBUG, ctx, "PrepareFact", "givenId", givenId, "id", id, "x", m)
